@@ -223,8 +223,11 @@ func (s *loopSet) translate(name string) string {
 			addVar(id)
 			o := t.info.Defs[id]
 			t.params[o] = true
-			if isPlainArray(o.Type()) || t.isBuilder(o) {
-				t.fail(id, "type %s is outside the translated subset (array parameters are copies; not supported)", o.Type())
+			if t.isBuilder(o) {
+				t.fail(id, "type %s is outside the translated subset (a strings.Builder parameter is not supported)", o.Type())
+			}
+			if isPlainArray(o.Type()) {
+				t.arrayParam(id, o) // stage 9 (loops_arr.go): an array passed by value
 			}
 			if t.kindOf(o.Type(), id) == kHash {
 				t.fail(id, "%s (a parameter of type hash.Hash is not supported)", hashShape)
@@ -236,16 +239,22 @@ func (s *loopSet) translate(name string) string {
 	var rt []string
 	if fd.Type.Results != nil && !t.ctor {
 		for _, f := range fd.Type.Results.List {
-			if len(f.Names) != 0 {
-				t.fail(f, "named results are not supported")
-			}
 			k := t.kindOf(t.typeOf(f.Type).Type, f)
 			if k == kHash || k == kMarsh || k == kMarshs {
 				t.fail(f, "a result of type %s is not supported", t.typeOf(f.Type).Type)
 			}
 			t.noStrings(k, f, "a result")
-			t.rets = append(t.rets, k)
-			rt = append(rt, k.lean())
+			for _, id := range f.Names {
+				// stage 9 (loops_arr.go): a named result is a local variable that starts with the zero value of its type
+				addVar(id)
+				t.namedResult(id, k)
+				t.rets = append(t.rets, k)
+				rt = append(rt, k.lean())
+			}
+			if len(f.Names) == 0 {
+				t.rets = append(t.rets, k)
+				rt = append(rt, k.lean())
+			}
 		}
 	}
 	ast.Inspect(fd.Body, func(n ast.Node) bool {
@@ -284,6 +293,7 @@ func (s *loopSet) translate(name string) string {
 		}
 		return ind + t.retValue(fd, nil)
 	})
+	body = t.namedResultInit(bodyInd) + body
 	for i := len(t.outBufs) - 1; i >= 0; i-- {
 		o := t.outBufs[i]
 		if t.pairBuf[o] {
@@ -313,6 +323,17 @@ func (s *loopSet) translate(name string) string {
 	}
 	if t.recvParam != nil {
 		doc += "; the receiver `" + t.recvParam.Name + "` (a value of a named slice type) is the first parameter"
+	}
+	for _, o := range t.arrParams {
+		n, _ := arrayLen(o.Type())
+		doc += fmt.Sprintf("; ASSUMPTION (not checked here): the array parameter `%s` (a %s passed by value, read-only here) is a list of length %d", t.vars[o], o.Type(), n)
+	}
+	if len(t.namedRes) > 0 {
+		var ns []string
+		for _, o := range t.namedRes {
+			ns = append(ns, "`"+t.vars[o]+"`")
+		}
+		doc += "; the named result" + map[bool]string{true: "s", false: ""}[len(ns) > 1] + " " + strings.Join(ns, ", ") + " start with the zero value of their type"
 	}
 	if len(t.outBufs) > 0 {
 		var ns []string
@@ -517,6 +538,9 @@ func (t *loopTr) block(list []ast.Stmt, ind string, m blockMode, k func(ind stri
 				return ind + "Go.Flow.done " + atom(val)
 			}
 			return ind + val
+		}
+		if len(s.Results) == 0 && len(t.namedRes) != 0 {
+			t.fail(s, "a bare return in a function with named results is not supported (write `return %s`)", t.namedResNames())
 		}
 		if len(s.Results) != len(t.rets) {
 			t.fail(s, "return arity")
